@@ -724,7 +724,7 @@ class Searcher(object):
                                              order=collapse_order)
 
         # Filtering wraps last so it sees the docs first
-        if filter or mask:
+        if filter is not None or mask is not None:
             c = collectors.FilterCollector(c, filter, mask)
         return c
 
